@@ -137,14 +137,58 @@ class FakeB2:
         return c, old
 
 
+import inspect
+
+
+async def call(fn, *a):
+    r = fn(*a)
+    if inspect.isawaitable(r):
+        r = await r
+    return r
+
+
 async def listing(c, prefix):
-    return [k async for k in c.list_files(prefix)]
+    r = c.list_files(prefix)
+    if hasattr(r, '__aiter__'):
+        return [k async for k in r]
+    return list(r)
 
 
-async def history(kind, rnd, n_ops):
-    svc = FakeS3() if kind == 's3' else FakeB2()
+class LocalStore:
+    """the local adapter on a scratch directory; `objects` = what is really on disk (read back, not via the adapter)"""
+
+    def __init__(self, root):
+        self.root = root
+
+    @property
+    def objects(self):
+        out = {}
+        for dirpath, _, files in os.walk(self.root):
+            for f in files:
+                p = os.path.join(dirpath, f)
+                out[os.path.relpath(p, self.root).replace(os.sep, '/')] = open(p, 'rb').read()
+        return out
+
+    def client(self):
+        from replicat.backends.local import Local
+
+        class _C(Local):
+            async def close(self_):
+                pass
+        return _C(self.root), None
+
+
+async def history(kind, rnd, n_ops, with_tmp=True):
+    scratch = None
+    if kind == 'local':
+        import tempfile
+        scratch = tempfile.mkdtemp(prefix='vf_c13s_')
+        svc = LocalStore(os.path.join(scratch, 'repo'))
+    else:
+        svc = FakeS3() if kind == 's3' else FakeB2()
     c, old = svc.client()
-    await old.aclose()
+    if old is not None:
+        await old.aclose()
     model = {}
     problems = []
     trace = []
@@ -154,41 +198,42 @@ async def history(kind, rnd, n_ops):
             got = await listing(client, prefix)
             want = sorted(k for k in model if k.startswith(prefix))
             if sorted(got) != want or len(got) != len(set(got)):
-                problems.append({'problem': f'list_files({prefix!r}) differs from the store ({where})', 'got': got[:6], 'want': want[:6], 'after': trace[-3:]})
+                problems.append({'problem': f'list_files({prefix!r}) differs from the store ({where})', 'got': got[:12], 'want': want[:12], 'after': trace[-3:]})
                 return False
         return True
 
     try:
         for step in range(n_ops):
             op = rnd.choice(['upload', 'upload', 'upload_stream', 'delete', 'delete_absent', 'exists', 'download', 'download_stream', 'list'])
-            name = rnd.choice(NAMES)
+            # local: no object named like a directory; '.tmp' names (known finding D10) only in the first history of a run
+            name = rnd.choice(NAMES if kind != 'local' else [n_ for n_ in NAMES if n_ != 'data/ab' and (with_tmp or not n_.endswith('.tmp'))])
             data = lib.content(step + 17, rnd.choice([0, 1, 50, 2500]))
             trace.append((op, name))
             if op == 'upload':
-                await c.upload(name, data)
+                await call(c.upload, name, data)
                 model[name] = data
             elif op == 'upload_stream':
-                await c.upload_stream(name, io.BytesIO(data), len(data), 1000)
+                await call(c.upload_stream, name, io.BytesIO(data), len(data), 1000)
                 model[name] = data
             elif op == 'delete':
-                await c.delete(name)
+                await call(c.delete, name)
                 model.pop(name, None)
             elif op == 'delete_absent':
-                absent = [n for n in NAMES if n not in model] or [name]
+                absent = [n for n in NAMES if n not in model and not (kind == 'local' and (n == 'data/ab' or (n.endswith('.tmp') and not with_tmp)))] or [name]
                 a = rnd.choice(absent)
                 model.pop(a, None)
-                await c.delete(a)
-                await c.delete(a)
+                await call(c.delete, a)
+                await call(c.delete, a)
             elif op == 'exists':
-                r = await c.exists(name)
+                r = await call(c.exists, name)
                 if bool(r) != (name in model):
                     problems.append({'problem': f'exists({name!r}) = {r}', 'stored': name in model})
             elif op in ('download', 'download_stream') and name in model:
                 if op == 'download':
-                    got = await c.download(name)
+                    got = await call(c.download, name)
                 else:
                     sink = io.BytesIO(b'stale-bytes-from-an-earlier-attempt' * 100)
-                    await c.download_stream(name, sink, 1000)
+                    await call(c.download_stream, name, sink, 1000)
                     got = sink.getvalue()
                 if got != model[name]:
                     problems.append({'problem': f'{op}({name!r}) returned different bytes', 'got': len(got), 'want': len(model[name])})
@@ -199,13 +244,17 @@ async def history(kind, rnd, n_ops):
                 break
             if step % 4 == 3:
                 c2, old2 = svc.client()
-                await old2.aclose()
+                if old2 is not None:
+                    await old2.aclose()
                 ok = await compare('fresh adapter object', c2)
                 await c2.close()
                 if not ok:
                     break
     finally:
         await c.close()
+        if scratch:
+            import shutil
+            shutil.rmtree(scratch, ignore_errors=True)
     return problems
 
 
@@ -214,19 +263,24 @@ def main():
     tier, seed = payload.get('tier', 'quick'), int(payload.get('seed', 0))
     only = payload.get('only_case')
     n_hist = 40 if tier == 'thorough' else 6
-    cases = [only] if only else [{'service': k, 'seed': seed * 100 + i, 'ops': 14} for k in ('s3', 'b2') for i in range(n_hist)]
+    cases = [only] if only else [{'service': k, 'seed': seed * 100 + i, 'ops': 14, 'tmp_names': k != 'local' or i == 0} for k in ('s3', 'b2', 'local') for i in range(n_hist)]
     failures, samples = [], []
     lib.patch_sleep()
     for idx, case in enumerate(cases):
         rnd = random.Random(case['seed'])
         try:
-            probs = lib.run(history(case['service'], rnd, case['ops']))
+            probs = lib.run(history(case['service'], rnd, case['ops'], with_tmp=case.get('tmp_names', True)))
         except Exception as e:
             import traceback
             probs = [{'problem': 'exception', 'type': type(e).__name__, 'text': str(e)[:300], 'tb': traceback.format_exc()[-500:]}]
         if probs:
-            # a name ending in '.tmp' is only special for the LOCAL adapter (known finding D10); not here
-            failures.append({'id': f'{case["service"]}{idx}', 'class': None, 'case': case, 'detail': probs[:3]})
+            # names ending in '.tmp' are never listed by the LOCAL adapter (known finding D10): a local listing that differs
+            # from the store only by such names belongs to that class
+            cls = None
+            if case['service'] == 'local' and all(p.get('problem', '').startswith('list_files') and
+                                                  sorted(set(p['want']) - set(p['got'])) and all(x.endswith('.tmp') for x in set(p['want']) ^ set(p['got'])) for p in probs):
+                cls = 'D10'
+            failures.append({'id': f'{case["service"]}{idx}', 'class': cls, 'case': case, 'detail': probs[:3]})
         if len(samples) < 3:
             samples.append(case)
     lib.emit({'status': 'ok', 'cases': len(cases), 'distinct': len(cases), 'failures': failures[:10], 'samples': samples,
